@@ -29,8 +29,7 @@ theorem departures_getD : ∀ (arr : List (ℚ × Int)) (prev : Option ℚ) (t :
     cases prev with
     | none =>
       have ih := departures_getD rest (some (t + gap + txDelay size rate id)) (t + gap) k hk'
-      simp only [departures, List.getD_cons_succ, arrivalAt, Nat.add_sub_cancel, Nat.succ_ne_zero, if_false,
-        Nat.add_eq_zero_iff, and_false, one_ne_zero] at ih ⊢
+      simp only [departures, List.getD_cons_succ, arrivalAt, Nat.add_sub_cancel, Nat.succ_ne_zero, if_false] at ih ⊢
       refine ⟨ih.1, ?_⟩
       rw [ih.2]
       cases k with
@@ -38,8 +37,7 @@ theorem departures_getD : ∀ (arr : List (ℚ × Int)) (prev : Option ℚ) (t :
       | succ j => simp
     | some d =>
       have ih := departures_getD rest (some (Num.pymax (t + gap) d + txDelay size rate id)) (t + gap) k hk'
-      simp only [departures, List.getD_cons_succ, arrivalAt, Nat.add_sub_cancel, Nat.succ_ne_zero, if_false,
-        Nat.add_eq_zero_iff, and_false, one_ne_zero] at ih ⊢
+      simp only [departures, List.getD_cons_succ, arrivalAt, Nat.add_sub_cancel, Nat.succ_ne_zero, if_false] at ih ⊢
       refine ⟨ih.1, ?_⟩
       rw [ih.2]
       cases k with
